@@ -33,7 +33,7 @@ REQUIRED = ["lower_case_key", "duplicate_key", "param_after_notes", "stray_befor
             "lower_case_multi_value_key", "long_preamble_before_version", "key_only_param", "corpus_mutation",
             "version_key_spelled_with_escape", "key_only_notes_then_more_parameters",
             "non_ascii_letter_that_upper_cases_to_ascii_in_key", "version_key_with_dotless_i_or_long_s",
-            "sm_chart_field_framed_by_a_non_ascii_blank"]
+            "sm_chart_field_framed_by_a_non_ascii_blank", "symbolic_link_to_a_file_of_another_suffix_class"]
 
 FILE_NAMES = ["x.sm", "x.ssc", "x.SM", "x.SsC", "x.txt", "x.sm.bak", ".sm", "noext", "x.v2.ssc", "song.ssc.sm"]
 
@@ -197,6 +197,11 @@ def check(ctx, case):
             with open(p, "w", encoding="utf-8", newline="") as f:
                 f.write(text)
             paths[name] = p
+        # symbolic links whose own name and whose target's name fall into different suffix classes: the name given decides
+        links = {"link.ssc": "x.txt", "link.sm": "x.ssc", "link.txt": "x.ssc", "link2.ssc": "x.sm"}
+        for ln, target in links.items():
+            os.symlink(paths[target], os.path.join(tmp, ln))
+            paths[ln] = os.path.join(tmp, ln)
         from fs.memoryfs import MemoryFS
 
         mem = MemoryFS()
@@ -221,6 +226,22 @@ def check(ctx, case):
                 ("SSCSimfile(file=StringIO)", lambda: SSCSimfile(file=io.StringIO(text), strict=strict), text, "ssc"),
                 ("SMSimfile(file=iter)", lambda: SMSimfile(file=iter(text.splitlines(keepends=True)), strict=strict), text, "sm"),
                 ("SSCSimfile(file=iter)", lambda: SSCSimfile(file=iter(text.splitlines(keepends=True)), strict=strict), text, "ssc"),
+            ]
+            for ln in links:
+                low = ln.lower()
+                fmt_l = "ssc" if low.endswith(".ssc") else ("sm" if low.endswith(".sm") else "auto")
+                entries.append((f"open({ln} -> {links[ln]})", lambda p=paths[ln]: simfile.open(p, strict=strict), ftext, fmt_l))
+                ctx.feat("symbolic_link_to_a_file_of_another_suffix_class")
+            # an iterator of lines may hold empty strings (a filter that blanks lines, a chain with an empty header)
+            def with_empties():
+                ls = text.splitlines(keepends=True)
+                out = ["", ""] + ls[:1] + [""] + ls[1:3] + ["", ""] + ls[3:]
+                return iter(out)
+
+            entries += [
+                ("SMSimfile(file=iter with '' items)", lambda: SMSimfile(file=with_empties(), strict=strict), text, "sm"),
+                ("SSCSimfile(file=list with '' items)", lambda: SSCSimfile(file=list(with_empties()), strict=strict), text, "ssc"),
+                ("load(iter with '' items)", lambda: simfile.load(with_empties(), strict=strict), text, "auto"),
             ]
             # strict is the second positional parameter of load, loads and open
             entries += [
